@@ -478,7 +478,9 @@ func c10Replays(r *Run, t *tape.Tape, made *c10Made, parent any, rp *refParent, 
 			src = p.(cose.Sign1Message)
 		}
 		m := cose.Sign1Message{Headers: src.Headers, Payload: src.Payload, Signature: made.sig}
-		r.Lib(func() { err = m.Verify(made.external, &SpyVerifier{Inner: verifier, Alg: algOfHeaders(&m.Headers, verifier.Algorithm())}) })
+		r.Lib(func() {
+			err = m.Verify(made.external, &SpyVerifier{Inner: verifier, Alg: algOfHeaders(&m.Headers, verifier.Algorithm())})
+		})
 		if err == nil {
 			r.Fail("countersignature-accepted-as-message-signature/Sign1", "a countersignature's bytes verified as the COSE_Sign1 signature of its parent")
 		}
